@@ -116,7 +116,7 @@ def render_affinity(rng, K, L, diag, style=None):
 
 def mismatching_affinity(rng, K, L):
     """files whose columns / layers / layer ids disagree with K, L: must be rejected"""
-    kind = rng.choice([0, 1, 2, 4, 5, 7, 8] if L == 1 else [0, 1, 2, 3, 4, 5, 6, 7, 8, 9, 9])
+    kind = rng.choice([0, 1, 2, 4, 5, 7, 8] if L == 1 else [0, 1, 2, 3, 4, 5, 6, 7, 8, 9, 9, 10, 10])
     diag = [[round(rng.unit(), 3) for _ in range(K)] for _ in range(L)]
     if kind == 0:
         diag = [row + [0.5] for row in diag]                      # one column too many everywhere
@@ -140,6 +140,10 @@ def mismatching_affinity(rng, K, L):
         lines = ['# only a comment', '']
     if kind == 3 and L == 1:
         lines = []
+    if kind == 10:
+        # the leading data line(s) -- not all of them -- hold a layer id and no value at all; the other lines are well formed, the number of lines is L
+        for a in range(rng.rint(1, L - 1)):
+            lines[a] = lines[a].split()[0]
     if kind == 9:
         # a layer other than the last one is missing: fewer layer lines than L, distinct ids, the largest id still L - 1 (a gap in the ids)
         del lines[rng.below(L - 1)]
